@@ -139,11 +139,44 @@ func init() {
 		},
 		"harness/vrt.SchedMode": func(fr *frame, a []value) value {
 			fr.m.schedMode = true
+			fr.m.hookOnly = true
 			fr.m.preemptLeft = int(a[0].(*Term).Val)
 			return nil
 		},
 		"harness/vrt.SchedOff": func(fr *frame, a []value) value { fr.m.schedMode = false; return nil },
-		"harness/vrt.Sched": func(fr *frame, a []value) value { fr.m.syncPoint("hook:" + a[0].(string)); return nil },
+		// Sched(point): a named schedule point. Recorded for named threads (native
+		// sequencing of a counterexample) and, in schedule mode, a place where a
+		// preemption may be taken (a fork).
+		"harness/vrt.Sched": func(fr *frame, a []value) value {
+			m := fr.m
+			if m.cur != nil && m.cur.named {
+				m.hookTrace = append(m.hookTrace, m.cur.name+"|"+a[0].(string))
+			}
+			m.hookPoint("hook:" + a[0].(string))
+			return nil
+		},
+		"harness/vrt.Spawn": func(fr *frame, a []value) value {
+			fr.m.spawn(a[0].(string), a[1], nil)
+			fr.m.threads[len(fr.m.threads)-1].named = true
+			return nil
+		},
+		"harness/vrt.JoinAll": func(fr *frame, a []value) value {
+			m := fr.m
+			m.blockUntil("vrt.JoinAll", func() bool {
+				for _, t := range m.threads {
+					if t.named && t.status != tDone {
+						return false
+					}
+				}
+				return true
+			})
+			if m.pendingAbort != nil {
+				r := m.pendingAbort
+				m.pendingAbort = nil
+				panic(r)
+			}
+			return nil
+		},
 		"harness/vrt.Ite8": func(fr *frame, a []value) value {
 			return Ite(a[0].(*Term), a[1].(*Term), a[2].(*Term))
 		},
@@ -432,7 +465,7 @@ func (m *Machine) recordViolation(id, kind, msg string, _ *Term) {
 		m.collisionOnly++
 		return
 	}
-	v := violation{ID: id, Kind: kind, Msg: msg, Inputs: model, Known: m.knownTag, CRCPinned: pinned, Sched: append([]string(nil), m.schedTrace...), OSTrace: append([]string(nil), m.fsEvents...)}
+	v := violation{ID: id, Kind: kind, Msg: msg, Inputs: model, Known: m.knownTag, CRCPinned: pinned, Sched: append([]string(nil), m.schedTrace...), OSTrace: append([]string(nil), m.fsEvents...), SchedEvents: append([]string(nil), m.hookTrace...)}
 	for _, d := range m.trace {
 		if d.forked {
 			v.Path = append(v.Path, fmt.Sprintf("%s=%d", d.what, d.chosen))
